@@ -191,11 +191,21 @@ def cell_codec(ctx):
         S = Sym(prog, f)
         loops = cfg.natural_loops(f)
         cc = [b for b, t in f.calls() if cname(prog, t) == codec]
+        comb_kind = None
+        if not cc:
+            # the codec call sits in a closure driven by an iterator combinator (rows.iter_mut().try_for_each(|row| ..)): the combinator is the inner loop
+            from ..lib import lifted_closures
+            for L in lifted_closures(prog, f, S):
+                if any(cname(prog, t) == codec for b, t in L.fn.calls()) and L.call_block is not None and L.param and L.param.startswith("elem("):
+                    cc = [L.call_block]
+                    recv = L.param
+                    ty = " ".join(f.locals[a["pl"]["l"]] for a in f.blocks[L.call_block]["term"]["args"][:1] if a.get("pl"))
+                    comb_kind = "rows" if "Vec<internal::value::ValueRef>" in ty or "rows" in recv or "p3" in recv else "?"
         if len(cc) != 1:
             ctx.violation(R, short(fname), "expected one call of %s, found %d" % (short(codec), len(cc)), f.loc(), fn=fname)
             continue
         enclosing = sorted([(len(blks), h) for h, blks in loops.items() if cc[0] in blks])
-        kinds = []
+        kinds = [comb_kind] if comb_kind else []
         for sz, h in enclosing:
             # the iterator advanced at the loop header region: find the `next` call inside the loop that is not inside a smaller enclosing loop
             nxt = [(b, t) for b, t in f.calls() if b in loops[h] and (t.get("callee") or "").endswith("Iterator::next")]
@@ -208,7 +218,7 @@ def cell_codec(ctx):
                 desc.append("rows" if ("Vec<internal::value::ValueRef>" in (t.get("selfty") or "") or "Vec<internal::value::ValueRef>" in w or "Vec<internal::value::ValueRef>" in ty) else
                             ("columns" if "Column" in (t.get("selfty") or "") + ty else "?"))
             kinds.append(",".join(desc))
-        ok = len(enclosing) == 2 and "rows" in kinds[0] and "columns" in kinds[1]
+        ok = len(kinds) == 2 and "rows" in kinds[0] and "columns" in kinds[1]
         ctx.check(ok, R, short(fname), "inner loop over %s, outer loop over %s" % tuple(kinds[:2]) if len(kinds) >= 2 else str(kinds),
                   "%s is not column-major (codec call nested in loops over: %s, innermost first); the format stores all values of column 1, then column 2, ..." % (
                       short(fname), kinds), f.loc(), fn=fname, key="%s|%s" % (R, short(fname)))
